@@ -75,7 +75,8 @@ def gen_case(rng, big=False, bias=None):
         else:
             live = [s for s in st.values() if s]
             sig = rng.choice(live) if live else rng.choice(sigs)
-            lines.append(f"runraise {rng.below(nl)} {sig}")
+            ops = [":".join(map(str, one_op(True))) for _ in range(rng.below(3))]
+            lines.append(f"runraise {rng.below(nl)} {sig} " + " ".join(ops))
     for L in range(nl):
         lines.append(f"run {L}")
     return lines
@@ -232,6 +233,8 @@ class Mon:
                             y = H[e2["h"]]
                             if y["sig"] == e2["sig"] and y["inc"] == e2["inc"]:
                                 missed(e2, L)
+                            else:
+                                skipped_stale(e2)
                             e2["done"] = True
             x["got_cb"] = x["inc"]
             was_os = x["os"] and bool(x["sig"])
@@ -240,6 +243,13 @@ class Mon:
             ncb += 1
             if was_os and x["inc"] == x["got_cb"]:
                 spec_stop(h)                              # one-shot: exactly once, then stopped
+        def skipped_stale(e):
+            """a message of an earlier incarnation is read from the pipe: per the property nothing happens;
+            the known defect stops the handle if its current incarnation is one-shot"""
+            y = H[e["h"]]
+            if y["sig"] and y["os"] and y["inc"] != e["inc"]:
+                self.v(K_B, f"h{e['h']} (one-shot on {y['sig']}) is stopped by a message for {e['sig']} of an earlier incarnation")
+                spec_stop(e["h"])
         def missed(e, L):
             y = H[e["h"]]
             if y["os"] and y["own_cb_restart"]:
@@ -257,6 +267,8 @@ class Mon:
                         y = H[e["h"]]
                         if y["sig"] == e["sig"] and y["inc"] == e["inc"]:
                             missed(e, L)
+                        else:
+                            skipped_stale(e)
                         e["done"] = True
             exp[L] = []
         def loop_alive(L):
@@ -309,6 +321,8 @@ class Mon:
                             deferred = int(w[2])       # judged after the observation (a known finding may explain it)
                         else:
                             raise_sig(int(w[2]), o, None)
+                        for opw in w[3:]:
+                            spec_op(opw.split(":"))
                     elif o == "check" and w[0] == "runraise" and phase == "dispatch":
                         end_of_dispatch(L); phase = "check"
                         check_obs(cmd + " (poll phase)")
@@ -409,7 +423,7 @@ WITNESSES = [
     ["init 1 0", "script 0 stop:0 oneshot:0:12", "oneshot h0 10", "raise 10", "run 0"],               # own callback
     ["init 2 0 1 0", "oneshot h0 10", "start h1 10", "oneshot h2 10", "raise 10", "raise 10", "run 0", "stop h1", "run 1",
      "close h0", "close h1", "close h2", "run 0", "run 1"],
-    ["init 1 0 0", "start h0 10", "start h1 10", "close h0", "runraise 0 10", "run 0", "run 0"],       # finish_close re-queue
+    ["init 1 0 0", "start h0 10", "start h1 10", "runraise 0 10 close:0", "run 0", "run 0"],       # finish_close re-queue
     ["init 1 0", "oneshot h0 10", "stop h0", "start h0 10", "raise 10", "raise 10", "run 0", "raise 10", "run 0"],   # L2 (fixed)
 ]
 
